@@ -26,6 +26,7 @@ type Obligation struct {
 	Pos      string
 	Claimed  bool
 	MustFail bool // vacuity probe: expected to be sat/unknown
+	Soft     bool // a refuted probe is a warning, not a broken check
 	vc       *VC
 	Result   *SolverResult
 	Abstract bool // proof leans on a havocked step (informational)
